@@ -185,3 +185,70 @@ pub fn sort_by_stub<T, F: FnMut(&T, &T) -> std::cmp::Ordering>(v: &mut [T], mut 
         i += 1;
     }
 }
+
+// ---- scripted `format!`: the harness knows which strings the code under test will format, in
+// which order (e.g. `format!("${}", label)` once per variable label in `Desc::new`), and supplies
+// the results; `std::fmt::format` is stubbed by a function that pops them. Real formatting is not
+// tractable under CBMC even on concrete strings; its contract ("$" + name) is what is scripted.
+// Further calls (error messages) get an empty string. Native replay uses the real `format!`.
+static mut FMT_Q: [[u8; 4]; 6] = [[0; 4]; 6];
+static mut FMT_LEN: [usize; 6] = [0; 6];
+static mut FMT_N: usize = 0;
+static mut FMT_WIDTH: usize = 3;
+static mut FMT_I: usize = 0;
+/// start a script whose entries all have `width` bytes (2 or 3)
+pub fn fmt_script_reset_width(width: usize) {
+    unsafe {
+        FMT_N = 0;
+        FMT_I = 0;
+        FMT_WIDTH = width;
+    }
+}
+pub fn fmt_script_reset() {
+    fmt_script_reset_width(3)
+}
+/// script the next result: `prefix` followed by `bytes` (at most 3 bytes more)
+pub fn fmt_script_push(prefix: u8, bytes: &[u8]) {
+    unsafe {
+        let k = FMT_N;
+        FMT_Q[k][0] = prefix;
+        let mut i = 0;
+        while i < bytes.len() {
+            FMT_Q[k][i + 1] = bytes[i];
+            i += 1;
+        }
+        FMT_LEN[k] = bytes.len() + 1;
+        FMT_N += 1;
+    }
+}
+pub fn fmt_scripted(_a: std::fmt::Arguments<'_>) -> String {
+    unsafe {
+        if FMT_I < FMT_N {
+            let k = FMT_I;
+            FMT_I += 1;
+            let q = FMT_Q[k];
+            // one allocation size per harness (FMT_WIDTH is a constant set by the harness): allocation
+            // sizes chosen by a symbolic branch confuse CBMC's deallocation checks
+            let v = if FMT_WIDTH == 2 { vec![q[0], q[1]] } else { vec![q[0], q[1], q[2]] };
+            String::from_utf8_unchecked(v)
+        } else {
+            String::new()
+        }
+    }
+}
+
+/// second attempt at a `<[T]>::sort_by` stub (where-clause form, as in std)
+pub fn sort_by_stub2<T, F>(v: &mut [T], mut compare: F)
+where
+    F: FnMut(&T, &T) -> std::cmp::Ordering,
+{
+    let mut i = 1;
+    while i < v.len() {
+        let mut j = i;
+        while j > 0 && compare(&v[j], &v[j - 1]) == std::cmp::Ordering::Less {
+            v.swap(j - 1, j);
+            j -= 1;
+        }
+        i += 1;
+    }
+}
